@@ -25,7 +25,7 @@ def li_case(rng, consts):
 
 def exec_case(rng):
     """la / load / store by name executed: the documented effect"""
-    items, decls = rvasmgen.gen_abstract(rng, {"n": rng.choice([2, 4, 7])})
+    items, decls = rvasmgen.gen_abstract(rng, {"n": rng.choice([2, 4, 7]), "no_reserved": True})
     items = [it for it in items if it[0] in ("la", "loadv", "storev", "li", "mv", "label")]
     text = rvasmgen.render(rng, items, decls)
     lines = ["sim.new single 1 - -", f"sim.load {rvasmgen.hx(text)}", "sim.arch", "sim.run 400", "sim.arch"]
@@ -44,7 +44,7 @@ def cases(rng, tier):
         yield li_case(rng, [rng.choice([rng.randrange(2**32), rng.randrange(-2**31, 0), (rng.randrange(2**20) << 12) | rng.choice(LOWS)]) for _ in range(8)])
     m = 150 if tier == "quick" else 3000
     for _ in range(m):
-        c = rvasmgen.asm_case(rng, fault_prob=0.1, suite="asm-data")
+        c = rvasmgen.asm_case(rng, fault_prob=0.1, suite="asm-data", opts={"no_reserved": True})
         yield c
     for _ in range(80 if tier == "quick" else 1500):
         yield exec_case(rng)
